@@ -6,6 +6,28 @@ from common import (cg, c_to_json, c_from_json, canon, canon_c, cdiff, call, ord
 from framework import Prop, run_main
 
 
+import contextlib
+
+
+@contextlib.contextmanager
+def synthetic_names():
+    """records (in this process only) the names the real transformer gives its expression gates"""
+    T = cg.parsing.verilog._VerilogCircuitGraphTransformer
+    orig = T.add_node
+    made = []
+
+    def add_node(self, n, node_type, fanin=None, fanout=None, uid=False):
+        r = orig(self, n, node_type, fanin=fanin, fanout=fanout, uid=uid)
+        if uid:
+            made.append(str(r))
+        return r
+    T.add_node = add_node
+    try:
+        yield made
+    finally:
+        T.add_node = orig
+
+
 class P(Prop):
     pid = "C02"
     rule = ("random one-module netlists of the supported subset: input/output/wire declarations (grouped at random), named "
@@ -22,7 +44,11 @@ class P(Prop):
 
     def gen_case(self):
         rng = self.rng
-        m = vgen.Module(rng, blackboxes=vgen.FLOPS if rng.random() < 0.4 else (), adversarial=rng.choice([0, 0, 0.25]))
+        plant = [n for n in sorted(getattr(self, "made", ())) if n.isidentifier()][:8]
+        if plant and rng.random() < 0.2:
+            m = vgen.Module(rng, adversarial=0.6, plant=plant)
+        else:
+            m = vgen.Module(rng, blackboxes=vgen.FLOPS if rng.random() < 0.4 else (), adversarial=rng.choice([0, 0, 0.25]))
         text = m.render(comments=True)
         mut = None
         r = rng.random()
@@ -48,8 +74,9 @@ class P(Prop):
             m, text, mut = self.gen_case()
             seed = self.rng.randint(0, 5)
             bbj = [[b.name, sorted(b.input_set), sorted(b.output_set)] for b in vgen.FLOPS]
-            with ordered(seed):
+            with ordered(seed), synthetic_names() as made:
                 o, r = call(cg.io.verilog_to_circuit, text, m.name, False, list(vgen.FLOPS))
+            self.made = set(made)
             mm = drv.ask({"op": "verilog_read", "text": text, "name": m.name, "bbs": bbj, "seed": seed})
             self.corr_cases += 1
             self.stats.case(text, nontrivial=len(m.stmts) >= 2, sample={"text": text} if i < 2 else None)
@@ -62,7 +89,9 @@ class P(Prop):
 
     def oracle(self, m, text, mut):
         case = {"text": text, "name": m.name}
-        o, c = call(cg.io.verilog_to_circuit, text, m.name, False, list(vgen.FLOPS))
+        with synthetic_names() as made:
+            o, c = call(cg.io.verilog_to_circuit, text, m.name, False, list(vgen.FLOPS))
+        self.made = set(made)
         self.search_cases += 1
         if mut:
             if o == "ok":
@@ -72,14 +101,11 @@ class P(Prop):
         tie_names = {"tie_0", "tie_1", "tie_x"} & (set(m.inputs) | set(m.defs))
         if o != "ok":
             sig = f"verilog-read-raised-{o}"
-            if unconn:
-                sig += ":unconnected-pin"
-            elif tie_names:
-                sig += ":net-named-tie"
+            sig += self.synth_clash(m) or (":unconnected-pin" if unconn else "")
             self.fail("search", sig, f"verilog_to_circuit raised {o}", case)
             return
         if c.inputs() != set(m.inputs) or c.outputs() != set(m.outputs):
-            self.fail("search", "verilog-io" + (":net-named-tie" if tie_names else ""),
+            self.fail("search", "verilog-io" + self.synth_clash(m),
                       f"inputs {sorted(c.inputs())} vs {m.inputs}; outputs {sorted(c.outputs())} vs {m.outputs}", case)
             return
         for inst, bb, pins in m.bb_insts:
@@ -114,13 +140,13 @@ class P(Prop):
                     self.fail("search", sig, f"net {net} = {v[net]} but the netlist denotes {want[net]} under {a}", case)
                     return
 
-    @staticmethod
-    def synth_clash(m):
+    def synth_clash(self, m):
         names = set(m.inputs) | set(m.defs)
+        if names & self.made:
+            # a net of the netlist has exactly the name the transformer gave one of its expression gates
+            return ":net-captures-synthetic"
         if names & {"tie_0", "tie_1", "tie_x"}:
             return ":net-named-tie"
-        if any(n.startswith(("not_", "and_", "or_", "xor_", "xnor_", "mux_")) for n in names):
-            return ":net-named-like-synthetic"
         return ""
 
     def corpus(self):
